@@ -18,16 +18,16 @@ def gen(rng, tier):
         if sum(D) > 7 or max(abs(x) for x in D) > 9: continue
         out.append({"G": G, "D": D, "band": band, "pool": rng.choice(["raise", "raise", "inproc"] if i % 25 else ["real"]), "s": rng.randrange(1 << 30)})
     # multi-edge paths on 3 / 4 vertices with small effective divisors (the rank loop removes chips one by one: many sub-divisors with several debtors next
-    # to heavy edges); quick: a sample, thorough: every path with multiplicities <= 3 x every divisor in the box {0,1,2}^n of degree <= 5
+    # to heavy edges); every path with multiplicities <= 3 x every divisor in the box {0,1,2}^n of degree <= 5 (both tiers)
     import itertools
     allp = []
     for n in (3, 4):
         for mults in itertools.product((1, 2, 3), repeat=n - 1):
             for D in itertools.product((0, 1, 2), repeat=n):
                 if 1 <= sum(D) <= 5: allp.append((n, mults, D))
-    for n, mults, D in (allp if tier == "thorough" else rng.sample(allp, 160)):
+    for n, mults, D in allp:
         G = common.mk_graph(n, [(i, i + 1, mults[i]) for i in range(n - 1)], rng)
-        out.append({"G": G, "D": list(D), "band": "path", "fam": "exhaustive" if tier == "thorough" else "path", "pool": "raise", "s": rng.randrange(1 << 30)})
+        out.append({"G": G, "D": list(D), "band": "path", "fam": "exhaustive", "pool": "raise", "s": rng.randrange(1 << 30)})
     # bottlenecks: an edge bundle thicker than the number of vertices next to a thin edge, chips on one side and debt on the other (many firing rounds
     # of the same set are needed before anything reaches the sink)
     for _ in range(60 if tier == "quick" else 600):
